@@ -89,9 +89,42 @@ func (s *TaskSched) Yield(site string) {
 	<-t.resume
 }
 
+// settleBackground: a task that was found blocked on a lock goes on by itself
+// the moment the lock is released to it. Before anybody else is resumed it must
+// have come to rest again - at its next yield point, or on a lock once more:
+// otherwise the task resumed next could take the lock from under it (Go's mutex
+// lets a running goroutine overtake one that has been woken but has not run
+// yet), and which of the two wins would be the Go scheduler's choice.
+func (s *TaskSched) settleBackground() {
+	for _, t := range s.tasks {
+		if t.done || !t.background {
+			continue
+		}
+		still := 0
+		for i := 1; still < 3; i++ {
+			runtime.Gosched()
+			if i%500 != 0 {
+				continue
+			}
+			st := goroutineState(t.goid)
+			switch {
+			case st == "" || strings.HasPrefix(st, "chan send"):
+				still = 3 // gone, or parked at a yield point
+			case strings.HasPrefix(st, "sync.Mutex") || strings.HasPrefix(st, "sync.RWMutex") || strings.HasPrefix(st, "semacquire"):
+				still++
+			case strings.HasPrefix(st, "running") || strings.HasPrefix(st, "runnable"):
+				still = 0
+			default:
+				still++ // blocked elsewhere (a timer, the network double): not ours to wait for
+			}
+		}
+	}
+}
+
 func (s *TaskSched) Run() {
 	last := -1
 	for {
+		s.settleBackground()
 		var runnable []*simTask
 		for _, t := range s.tasks {
 			if !t.done {
@@ -126,6 +159,9 @@ func (s *TaskSched) Run() {
 			// parked task holds. Let it be and schedule someone else.
 			pick.background = true
 			s.Out.Probe("task_blocked_on_lock")
+			if stepLog {
+				s.Out.Logf("TASK %d blocked on a lock (sched step %d)", pick.id, s.steps)
+			}
 			s.stuck++
 			if s.stuck > 10000 {
 				s.Out.Harness = "TaskSched: tasks blocked forever (deadlock among simulated tasks)"
@@ -140,6 +176,9 @@ func (s *TaskSched) Run() {
 		} else {
 			s.Out.Sig = mix64(s.Out.Sig ^ H(pick.id, site))
 			s.Out.Steps++
+			if stepLog {
+				s.Out.Logf("TASK %d at %s (sched step %d, %d runnable)", pick.id, site, s.steps, len(runnable))
+			}
 			if site != "between" {
 				s.Out.Probe("preempted_inside_operation")
 			}
@@ -153,6 +192,7 @@ func (s *TaskSched) Run() {
 // time: a slow machine must not turn a busy task into a "blocked" one, because
 // the scheduler would then let a second task run beside it.
 func (s *TaskSched) await(t *simTask) (string, bool) {
+	waiting := 0
 	for i := 1; ; i++ {
 		select {
 		case site := <-t.parked:
@@ -163,6 +203,12 @@ func (s *TaskSched) await(t *simTask) (string, bool) {
 		if i%2000 == 0 {
 			st := goroutineState(t.goid)
 			if strings.HasPrefix(st, "sync.Mutex") || strings.HasPrefix(st, "sync.RWMutex") || strings.HasPrefix(st, "semacquire") {
+				// A lock held by a parked task is never released; one held by a
+				// goroutine that is no task (a pubsub delivery in the middle of its own
+				// reload) is, in a moment. Only a wait that lasts counts as blocked.
+				if waiting++; waiting < 5 || bubbleBusy() {
+					continue
+				}
 				// make sure it has not just moved on
 				select {
 				case site := <-t.parked:
@@ -171,11 +217,33 @@ func (s *TaskSched) await(t *simTask) (string, bool) {
 				}
 				return "", false
 			}
+			waiting = 0
 		}
 	}
 }
 
 var stackBuf = make([]byte, 1<<20)
+
+// bubbleBusy reports whether any goroutine of the bubble other than the caller
+// is running or runnable: somebody who may be about to release the lock a task
+// is waiting for.
+func bubbleBusy() bool {
+	me := []byte(fmt.Sprintf("goroutine %d [", goid()))
+	n := runtime.Stack(stackBuf, true)
+	for _, g := range bytes.Split(stackBuf[:n], []byte("\n\n")) {
+		hdr := g
+		if k := bytes.IndexByte(g, '\n'); k >= 0 {
+			hdr = g[:k]
+		}
+		if !bytes.Contains(hdr, []byte("synctest bubble")) || bytes.HasPrefix(hdr, me) {
+			continue
+		}
+		if bytes.Contains(hdr, []byte("[running")) || bytes.Contains(hdr, []byte("[runnable")) {
+			return true
+		}
+	}
+	return false
+}
 
 // goroutineState returns the wait state the runtime reports for a goroutine
 // ("running", "runnable", "sync.Mutex.Lock", "chan send (durable), synctest bubble 1", ...).
